@@ -193,4 +193,37 @@ theorem enumInto_collision_lt (key : Nat → String) (xs : List α) :
       have := ih (i + 1) j1 j2' (dictSet d (key i) x) (by omega) hlen hk'
       simp only [enumInto, List.length_cons]; omega
 
+/-! ### The three name families of the dummy graph are disjoint -/
+
+theorem head_ne (c1 c2 : Char) (r1 r2 : String) (a b : String) (h : c1 ≠ c2) :
+    (String.singleton c1 ++ r1) ++ a ≠ (String.singleton c2 ++ r2) ++ b := by
+  intro heq
+  have := congrArg String.toList heq
+  simp [String.toList_append] at this
+  exact h this.1
+
+theorem out_ne_outer (a b : Nat) : pyKey "__dummy_output" a ≠ pyKey "__dummy_outer_output" b := by
+  unfold pyKey
+  have h1 : "__dummy_output" = "__dummy_out" ++ (String.singleton 'p' ++ "ut") := by decide
+  have h2 : "__dummy_outer_output" = "__dummy_out" ++ (String.singleton 'e' ++ "r_output") := by decide
+  rw [h1, h2, String.append_assoc, String.append_assoc]
+  intro h
+  exact head_ne 'p' 'e' "ut" "r_output" _ _ (by decide) ((String.append_right_inj _).1 h)
+
+theorem in_ne_output (a b : Nat) : pyKey "__dummy_input" a ≠ pyKey "__dummy_output" b := by
+  unfold pyKey
+  have h1 : "__dummy_input" = "__dummy_" ++ (String.singleton 'i' ++ "nput") := by decide
+  have h2 : "__dummy_output" = "__dummy_" ++ (String.singleton 'o' ++ "utput") := by decide
+  rw [h1, h2, String.append_assoc, String.append_assoc]
+  intro h
+  exact head_ne 'i' 'o' "nput" "utput" _ _ (by decide) ((String.append_right_inj _).1 h)
+
+theorem in_ne_outer (a b : Nat) : pyKey "__dummy_input" a ≠ pyKey "__dummy_outer_output" b := by
+  unfold pyKey
+  have h1 : "__dummy_input" = "__dummy_" ++ (String.singleton 'i' ++ "nput") := by decide
+  have h2 : "__dummy_outer_output" = "__dummy_" ++ (String.singleton 'o' ++ "uter_output") := by decide
+  rw [h1, h2, String.append_assoc, String.append_assoc]
+  intro h
+  exact head_ne 'i' 'o' "nput" "uter_output" _ _ (by decide) ((String.append_right_inj _).1 h)
+
 end SubgraphNamesLemmas
